@@ -1,6 +1,7 @@
 package rules
 
 import (
+	"go/token"
 	"go/types"
 	"strings"
 
@@ -14,7 +15,7 @@ func init() {
 		ID: "C11",
 		Explanation: "Decides structural necessary conditions of C11: (R-C11-1) in Store.poll every iteration over the snapshot either issues GetIfChanged for that name or takes a skip path whose deciding condition depends (data/control dependence, through the snapshot's struct field and module callees) on a comma-ok read of the handle map Store.active.f: the store may only skip what it is going to forget, and it never forgets a name that has a handle; " +
 			"(R-C11-2) poll errors abort before applying: applyUpdates is edge-dominated by the nil edge of poll, every GetIfChanged error other than ErrValueNotChanged flows into the returned errors.Join, the refresh closure reports both failures; (R-C11-3) pairing: the name fetched, the version sent and the key written to the update set are the same snapshot entry, and apply installs updates[name] under name; " +
-			"(R-C11-4) apply happens in one critical section followed by a cache flush; (R-C11-5) single-flight keys are the constant \"poll\" or \"lookup:\"+name (disjoint families) and Refresh is the only route to poll/applyUpdates; (R-C11-6) poll itself writes nothing to the active set, so a failed poll leaves every old value in place.",
+			"(R-C11-4) apply happens in one critical section followed by a cache flush; (R-C11-5) single-flight keys are the constant \"poll\" or \"lookup:\"+name (disjoint families) and Refresh is the only route to poll/applyUpdates; (R-C11-7) cadence: the poller waits on one ticker created with interval plus a jitter of at most a tenth of the interval either way, and nothing resets that ticker; (R-C11-6) poll itself writes nothing to the active set, so a failed poll leaves every old value in place.",
 		NotDecided:  "Freshness against the service's history; poll cadence +/-10% (arithmetic on a random value); convergence after failures.",
 		Trusted:     append([]string{"singleflight.Group runs one function per key at a time and hands every waiter its result", "errors.Join is nil iff all elements are nil"}, commonTrusted...),
 		Assumptions: []string{},
@@ -25,16 +26,48 @@ func init() {
 func runC11(c *eng.Ctx, tier string) {
 	p := c.P
 	poll := p.Method(setecPkg, "Store", "poll")
-	apply := p.Method(setecPkg, "Store", "applyUpdates")
 	refresh := p.Method(setecPkg, "Store", "Refresh")
-	if poll == nil || apply == nil || refresh == nil {
-		c.Undecided("anchor", nil, 0, "setec.(*Store).poll/applyUpdates/Refresh", "anchors do not resolve")
+	afs := applyFuncs(c)
+	if poll == nil || refresh == nil || len(afs) == 0 {
+		c.Undecided("anchor", nil, 0, "setec.(*Store).poll / Refresh / the function installing poll results", "anchors do not resolve")
 		return
+	}
+	// the function the refresh round calls to apply: the callee of the round
+	// (the closure calling poll) that reaches an installing function
+	apply := afs[0]
+	for _, e := range p.CallGraph().CallersOf(poll) {
+		eng.Instrs(e.Caller, func(in ssa.Instruction) {
+			if call, ok := in.(*ssa.Call); ok {
+				if cal := eng.Callee(&call.Call); cal != nil && cal != poll {
+					for _, af := range afs {
+						if p.CallGraph().Reach(cal, nil)[af] {
+							apply = cal
+						}
+					}
+				}
+			}
+		})
 	}
 	c11Poll(c, poll)
 	c11Refresh(c, refresh, poll, apply)
-	c11Apply(c, apply)
+	for _, af := range afs {
+		c11Apply(c, af)
+	}
 	c11Keys(c, refresh, poll, apply)
+	c11Cadence(c)
+	// the cache is written with the lock held (a flush encoded earlier can
+	// otherwise land after a newer one: the cache would not hold what the store yields)
+	l := moduleLocks(c)
+	for _, f := range p.PkgFuncs(setecPkg) {
+		eng.Instrs(f, func(in ssa.Instruction) {
+			call, ok := in.(*ssa.Call)
+			if !ok || !call.Call.IsInvoke() || call.Call.Method.Name() != "Write" || !eng.IsNamed(call.Call.Value.Type(), setecPkg, "Cache") {
+				return
+			}
+			st := l.HeldBefore(in)
+			c.Check(l.Holds(st, keyStore), "R-C11-4", f, in.Pos(), eng.CallStr(&call.Call)+" [lock]", "the cache is written inside the critical section in which the document was encoded (flushes cannot overtake each other)", "held: "+l.StateStr(st))
+		})
+	}
 	// R-C11-6 poll writes nothing
 	g := p.CallGraph()
 	reach := g.Reach(poll, nil)
@@ -316,8 +349,10 @@ func c11Refresh(c *eng.Ctx, refresh, poll, apply *ssa.Function) {
 		}
 	}
 	c.Check(ok, "R-C11-2", cl, applyCall.Pos(), eng.CallStr(&applyCall.Call), "updates are applied only on the nil-error edge of poll (a failed poll applies nothing)", "holding here: "+eng.FactsString(applyCall))
-	// same update set
-	c.Check(len(pollCall.Call.Args) == 3 && len(applyCall.Call.Args) == 2 && eng.Same(pollCall.Call.Args[2], applyCall.Call.Args[1]), "R-C11-2", cl, applyCall.Pos(), "update set handed from poll to applyUpdates", "the same map", "")
+	// same update set, made afresh for this round
+	sameSet := len(pollCall.Call.Args) == 3 && len(applyCall.Call.Args) == 2 && eng.Same(pollCall.Call.Args[2], applyCall.Call.Args[1])
+	_, fresh := eng.Origin(pollCall.Call.Args[len(pollCall.Call.Args)-1]).(*ssa.MakeMap)
+	c.Check(sameSet && fresh, "R-C11-2", cl, applyCall.Pos(), "update set handed from poll to the apply step", "the same map, created empty for this round (nothing fetched by an earlier, failed round can be applied later)", "same="+boolStr(sameSet)+" fresh="+boolStr(fresh)+": "+eng.ValStr(pollCall.Call.Args[len(pollCall.Call.Args)-1]))
 	// both failures reported by the closure
 	for _, call := range []*ssa.Call{pollCall, applyCall} {
 		ev := ssa.Value(call)
@@ -532,5 +567,94 @@ func c11Keys(c *eng.Ctx, refresh, poll, apply *ssa.Function) {
 		for _, e := range p.CallGraph().CallersOf(target) {
 			c.Check(eng.Outer(e.Caller) == refresh, "R-C11-5", e.Caller, e.Site.Pos(), "caller of "+target.Name()+": "+eng.FName(e.Caller), "poll and applyUpdates run only inside Refresh's single-flight round (two apply phases never overlap)", "")
 		}
+	}
+}
+
+// c11Cadence: R-C11-7.
+func c11Cadence(c *eng.Ctx) {
+	p := c.P
+	// no Reset of a time.Ticker anywhere in the client library
+	n := 0
+	for _, f := range p.PkgFuncs(setecPkg) {
+		eng.Instrs(f, func(in ssa.Instruction) {
+			if call, ok := in.(*ssa.Call); ok && eng.CalleeIs(&call.Call, "time", "*Ticker.Reset") {
+				n++
+				c.Bad("R-C11-7", f, in.Pos(), eng.CallStr(&call.Call), "the poll ticker is never reset (a reset after each poll stretches the period by the poll's duration)", "Ticker.Reset")
+			}
+		})
+	}
+	run := p.Method(setecPkg, "Store", "run")
+	if run == nil {
+		c.Undecided("R-C11-7", nil, 0, "setec.(*Store).run", "anchor does not resolve")
+		return
+	}
+	// jitter = Intn(2*int(interval)/10) - int(interval)/10, ticker(interval + jitter)
+	var intervalP *ssa.Parameter
+	for _, prm := range run.Params {
+		if eng.IsNamed(prm.Type(), "time", "Duration") {
+			intervalP = prm
+		}
+	}
+	okJ := false
+	detail := "no ticker creation found"
+	eng.Instrs(run, func(in ssa.Instruction) {
+		call, ok := in.(*ssa.Call)
+		if !ok {
+			return
+		}
+		fr, _, isF := eng.LoadedField(call.Call.Value)
+		if !isF || !fr.Is(setecPkg, "Store", "newTicker") || len(call.Call.Args) != 1 {
+			return
+		}
+		// arg = interval + jitter
+		b, isB := eng.Origin(call.Call.Args[0]).(*ssa.BinOp)
+		if !isB || b.Op != token.ADD || eng.Origin(b.X) != ssa.Value(intervalP) {
+			detail = "ticker period is " + eng.ValStr(call.Call.Args[0])
+			return
+		}
+		// jitter = Duration(Intn(A) - B)
+		j, isJ := eng.OriginConv(b.Y).(*ssa.BinOp)
+		if !isJ || j.Op != token.SUB {
+			detail = "jitter is " + eng.ValStr(b.Y)
+			return
+		}
+		rc, _ := eng.TupleCall(j.X)
+		if rc == nil || !eng.CalleeIs(&rc.Call, "math/rand", "Intn") {
+			detail = "jitter is " + eng.ValStr(b.Y)
+			return
+		}
+		// A = 2*int(interval)/10 , B = int(interval)/10
+		tenth := func(v ssa.Value, mult int64) bool {
+			q, ok := eng.Origin(v).(*ssa.BinOp)
+			if !ok || q.Op != token.QUO {
+				return false
+			}
+			if k, isK := eng.ConstInt(q.Y); !isK || k != 10 {
+				return false
+			}
+			num := eng.Origin(q.X)
+			if mult == 1 {
+				return eng.OriginConv(num) == ssa.Value(intervalP)
+			}
+			m, ok := num.(*ssa.BinOp)
+			if !ok || m.Op != token.MUL {
+				return false
+			}
+			k, isK := eng.ConstInt(m.X)
+			if isK && k == mult && eng.OriginConv(m.Y) == ssa.Value(intervalP) {
+				return true
+			}
+			k, isK = eng.ConstInt(m.Y)
+			return isK && k == mult && eng.OriginConv(m.X) == ssa.Value(intervalP)
+		}
+		if tenth(rc.Call.Args[0], 2) && tenth(j.Y, 1) {
+			okJ = true
+		} else {
+			detail = "jitter is " + eng.ValStr(b.Y)
+		}
+	})
+	c.Check(okJ, "R-C11-7", run, run.Pos(), "period of the poll ticker", "interval + (rand.Intn(2*interval/10) - interval/10): within +/-10% of the configured interval", detail)
+	if n == 0 {
+		c.Ok("R-C11-7", run, run.Pos(), "Ticker.Reset calls in the client library", "none")
 	}
 }
